@@ -131,6 +131,34 @@ func (w *World) runInits() {
 		visit(path)
 	}
 	w.inInit = false
+	// package-level error values of the standard library (io.EOF, io.ErrUnexpectedEOF, ...) are distinct,
+	// non-nil, immutable error objects
+	for fn := range ssautil.AllFunctions(w.prog) {
+		if fn.Pkg == nil || !w.isOurs(fn.Pkg.Pkg.Path()) {
+			continue
+		}
+		for _, b := range fn.Blocks {
+			for _, ins := range b.Instrs {
+				for _, op := range ins.Operands(nil) {
+					g, ok := (*op).(*ssa.Global)
+					if !ok || g.Pkg == nil || w.isOurs(g.Pkg.Pkg.Path()) {
+						continue
+					}
+					et := g.Type().(*types.Pointer).Elem()
+					if et.String() != "error" {
+						continue
+					}
+					o := w.globalObj(g)
+					if _, done := st.Heap[o.ID]; done {
+						continue
+					}
+					eo := x.newObj(types.Typ[types.Int], "error:"+g.Pkg.Pkg.Name()+"."+g.Name())
+					st.Heap[eo.ID] = Scalar{Const(64, 0)}
+					st.Heap[o.ID] = IfaceV{Dyn: types.NewPointer(types.Typ[types.Int]), V: Ptr{Obj: eo}}
+				}
+			}
+		}
+	}
 	w.GHeap = st.Heap
 	for id, o := range x.objs {
 		w.gobjs[id] = o
